@@ -1,6 +1,7 @@
 package main
 
 import (
+	"bytes"
 	"crypto/elliptic"
 	"crypto/sha512"
 	"fmt"
@@ -11,6 +12,7 @@ import (
 
 	"github.com/cloudflare/pat-go/ecdsa"
 	"github.com/cloudflare/pat-go/ed25519"
+	"github.com/cloudflare/pat-go/quicwire"
 	"github.com/cloudflare/pat-go/tokens"
 	"github.com/cloudflare/pat-go/tokens/batched"
 	"github.com/cloudflare/pat-go/tokens/type1"
@@ -137,6 +139,8 @@ func getRobustWorld(seed int64) *robustWorld {
 			"attester.FinalizeIndex/blindedKey": w.a3.blindedRK, "attester.FinalizeIndex/clientKey": w.a3.clientKey,
 			"attester.FinalizeIndex/blind": w.a3.blind,
 			"ecdsa.VerifyASN1":             w.ecSig, "ed25519.Verify": w.edSig, "ed25519.Verify/key": w.edPub, "util.UnmarshalTokenKey": w.spki,
+			"quicwire.ConsumeVarintBytes": quicwire.AppendVarintBytes(nil, bytes.Repeat([]byte{0x5a}, 300)),
+			"quicwire.ConsumeUint8Bytes":  quicwire.AppendUint8Bytes(nil, bytes.Repeat([]byte{0x5a}, 40)), "quicwire.ConsumeVarint": {0xc0, 1, 2, 3, 4, 5, 6, 7},
 		}
 		rw = w
 	})
@@ -296,6 +300,15 @@ func callConsumer(w *robustWorld, fn string, in []byte, aux ev) string {
 	case "util.UnmarshalTokenKey":
 		_, err := util.UnmarshalTokenKey(in)
 		return resErr(err)
+	case "quicwire.ConsumeVarintBytes":
+		_, n := quicwire.ConsumeVarintBytes(in)
+		return map[bool]string{true: "ok", false: "error"}[n >= 0]
+	case "quicwire.ConsumeUint8Bytes":
+		_, n := quicwire.ConsumeUint8Bytes(in)
+		return map[bool]string{true: "ok", false: "error"}[n >= 0]
+	case "quicwire.ConsumeVarint":
+		_, n := quicwire.ConsumeVarint(in)
+		return map[bool]string{true: "ok", false: "error"}[n >= 0]
 	}
 	return "unknown-fn"
 }
@@ -416,6 +429,13 @@ func genRobust(c *ctx, emit func(ev)) {
 	suite("ed25519.Verify", w.edSig, nil, false)
 	suite("ed25519.Verify/key", w.edPub, nil, false)
 	suite("util.UnmarshalTokenKey", w.spki, []lenField{{1, "u8"}, {2, "u16"}, {5, "u8"}}, true)
+	// the wire primitives themselves: length-prefixed strings with every declared length
+	for _, b := range mutations(quicwire.AppendVarintBytes(nil, randBytes(r, 40)), []lenField{{0, "varint"}}, r, true) {
+		call("quicwire.ConsumeVarintBytes", b, false)
+	}
+	suite("quicwire.ConsumeVarintBytes", w.honestIn["quicwire.ConsumeVarintBytes"], []lenField{{0, "varint"}}, true)
+	suite("quicwire.ConsumeUint8Bytes", w.honestIn["quicwire.ConsumeUint8Bytes"], []lenField{{0, "u8"}}, true)
+	suite("quicwire.ConsumeVarint", w.honestIn["quicwire.ConsumeVarint"], nil, true)
 
 	// a generic batch containing good and failing requests
 	{
